@@ -628,7 +628,12 @@ class _InternalBaseTracer(_InternalBaseTracerSuper, metaclass=MetaTracerStateMac
     def __enter__(self, **kwargs) -> ContextManager:
         assert self._ctx is None
         self._ctx = self.tracing_enabled(**kwargs)
-        return self._ctx.__enter__()  # type: ignore
+        try:
+            return self._ctx.__enter__()  # type: ignore
+        except BaseException:
+            # not entered: `with tracer:` must stay usable
+            self._ctx = None
+            raise
 
     def __exit__(self, exc_type, exc_val, exc_tb):
         assert self._ctx is not None
@@ -715,25 +720,31 @@ class _InternalBaseTracer(_InternalBaseTracerSuper, metaclass=MetaTracerStateMac
             self._num_sandbox_calls_seen = orig_num_sandbox_calls_seen
 
             if should_push:
-                del _TRACER_STACK[-1]
+                # this tracer's entry, wherever it is: enable_tracing / disable_tracing need not nest
+                for idx in range(len(_TRACER_STACK) - 1, -1, -1):
+                    if _TRACER_STACK[idx] is self:
+                        del _TRACER_STACK[idx]
+                        break
             if will_enable_tracing:
                 self._disable_tracing(check_enabled=False)
-            if should_push:
-                self.exit_tracing_hook()
-
-            if len(_TRACER_STACK) == 0:
-                for extra_builtin in {
-                    EMIT_EVENT,
-                    EXEC_SAVED_THUNK,
-                    TRACE_LAMBDA,
-                } | self.guards:
-                    if hasattr(builtins, extra_builtin):
-                        delattr(builtins, extra_builtin)
-                # lambdas, comprehensions and loops compiled under tracing still test this
-                # flag when they run later: leave it defined (like FUNCTION_TRACING_ENABLED)
-                setattr(builtins, TRACING_ENABLED, False)
-            elif orig_exec_saved_thunk is not None:
-                setattr(builtins, EXEC_SAVED_THUNK, orig_exec_saved_thunk)
+            try:
+                if should_push:
+                    self.exit_tracing_hook()
+            finally:
+                # also when the hook raises: nothing of ours stays behind in builtins
+                if len(_TRACER_STACK) == 0:
+                    for extra_builtin in {
+                        EMIT_EVENT,
+                        EXEC_SAVED_THUNK,
+                        TRACE_LAMBDA,
+                    } | self.guards:
+                        if hasattr(builtins, extra_builtin):
+                            delattr(builtins, extra_builtin)
+                    # lambdas, comprehensions and loops compiled under tracing still test this
+                    # flag when they run later: leave it defined (like FUNCTION_TRACING_ENABLED)
+                    setattr(builtins, TRACING_ENABLED, False)
+                elif orig_exec_saved_thunk is not None:
+                    setattr(builtins, EXEC_SAVED_THUNK, orig_exec_saved_thunk)
 
         return cleanup
 
@@ -803,7 +814,12 @@ class _InternalBaseTracer(_InternalBaseTracerSuper, metaclass=MetaTracerStateMac
         if will_enable_tracing:
             self._enable_tracing()
         if should_push:
-            self.enter_tracing_hook()
+            try:
+                self.enter_tracing_hook()
+            except BaseException:
+                # the context is not entered: undo what was installed for it
+                cleanup_callback()
+                raise
         return cleanup_callback
 
     def preprocess(self, code: str, rewriter: AstRewriter) -> str:
